@@ -376,6 +376,10 @@ class RandomGen:
             return b.expr(kind='not', args=[self.test(scope, depth + 1)])
         if r < 0.93:
             return b.expr(kind=self.r.choice(['and', 'or']), args=[self.test(scope, depth + 1), self.test(scope, depth + 1)])
+        if r < 0.96 and self.contexts:     # an overloadable operator below a comparison operand
+            inner = b.expr(kind=self.r.choice(['and', 'or']), args=[b.T(self.reads(scope, 0, 1)), self.r.choice(
+                [b.expr(kind='none'), b.T(self.reads(scope, 0, 1))])]) if self.r.random() < 0.7 else b.expr(kind='not', args=[b.D([])])
+            return b.expr(kind='isnone', args=[inner])
         return b.expr(kind='name', name=self.r.choice(scope))
 
     def value(self, scope, depth=0):
@@ -502,7 +506,10 @@ class RandomGen:
         b = self.b
         np_ = self.r.choice([0, 1, 1, 2])
         params = ['p', 'q'][:np_]
-        fid = b.fn('g%d' % (len(b.fns) + 1), params, fn)
+        name = 'g%d' % (len(b.fns) + 1)
+        if self.contexts and self.r.random() < 0.08 and not any(f['name'] == 'set_trace' for f in b.fns):
+            name = 'set_trace'       # an ordinary user function: only pdb.set_trace / ipdb.set_trace / breakpoint are debugger entries
+        fid = b.fn(name, params, fn)
         b.fns[fid - 1]['nonlocals'] = self.r.sample(self.names, self.r.choice([0, 1, 1, 2]) if self.closure_bias else self.r.randint(0, 1))
         inner = (self.names * 3 + params) if self.closure_bias else scope + params
         b.fns[fid - 1]['body'] = self.block(fid, inner, depth + 1, False, False)
@@ -569,6 +576,8 @@ def r_expr(p, e):
         return 'True' if x['k'] else 'False'
     if k in BINOPS:
         return '(%s %s %s)' % (r_expr(p, x['args'][0]), BINOPS[k], r_expr(p, x['args'][1]))
+    if k == 'isnone':
+        return '(%s is None)' % r_expr(p, x['args'][0])
     if k == 'range':
         return 'range(%s)' % r_expr(p, x['args'][0])
     if k == 'not':
@@ -944,6 +953,9 @@ class PureGen:
     def test(self, scope, depth=0):
         b = self.b
         r = self.r.random()
+        if r < 0.1 and depth == 0:      # ((x < 1) or y) > 0, (not (x == y)) != z: overloadable operators below a comparison operand
+            return b.expr(kind=self.r.choice(['lt', 'gt', 'eq', 'ne']), args=[self.test(scope, 1) if self.r.random() < 0.5 else b.expr(
+                kind=self.r.choice(['and', 'or']), args=[self.test(scope, 1), self.atom(scope)]), self.atom(scope)])
         if r < 0.7 or depth > 0:
             return b.expr(kind=self.r.choice(['lt', 'le', 'gt', 'ge', 'eq', 'ne']), args=[self.arith(scope, 1), self.arith(scope, 1)])
         if r < 0.8:
